@@ -8,9 +8,8 @@ import (
 	pb "github.com/xuperchain/xupercore/bcs/ledger/xledger/xldgpb"
 )
 
-// VerifSortUnconfirmedTx exposes the pool's dependency graph (txid -> txids that must come later)
-// to the verification harness.
+// VerifSortUnconfirmedTx exposes the graph the pool sorts for packing (txid -> txids that must come
+// later) to the verification harness.
 func (t *State) VerifSortUnconfirmedTx() (map[string]*pb.Transaction, tx.TxGraph, error) {
-	txMap, txGraph, _, err := t.tx.SortUnconfirmedTx()
-	return txMap, txGraph, err
+	return t.tx.VerifPackingGraph()
 }
